@@ -24,7 +24,7 @@ import (
 func init() {
 	fw.Register(&fw.Check{
 		ID: "C16", Level: "model_checking",
-		Rule:   "controlled cooperative scheduler + DFS over schedules with iterative preemption bounding (0, 1, 2; thorough 3) on a source-instrumented build (import \"sync\" -> scheduler-aware shim; every statement touching the guarded fields of a mutex-bearing struct or a mutable package-level variable preceded by an access hook = scheduling point; every write to a struct field reached through a pointer, and every read of a field that some statement writes, reported to the happens-before monitor without a scheduling point (all packages but the scanner); the pinned schema library's own synchronisation (two RWMutexes, one Once, two sync.Pools - the pools as deterministic LIFO free lists, fresh per execution, Get / Put scheduling points with the Put -> Get happens-before edge) redirected to the same shim; generated VerifResetGlobals). H1: for each of the 7 generated collection types, every scenario of 2 writers x 1 reader with one operation each from {Set, SetToTop, Update, Set other key} x {Get, Len, Each, MarshalJSON} on keys forced to collide, from an empty or pre-filled collection: no data race (vector-clock happens-before monitor), no deadlock, the history is linearizable against a sequential ordered-map reference (brute force over the <= 3! orders consistent with real time), no lost update, every key once in the order; H2: 2-3 threads making the process's first calls to NewDirectiveType; H3: two whole parses (same / different / rejected documents) against package-level state; H4: one validated catalog whose first serialisation and reads happen in 2-3 threads at once (reference result from a second catalog built from the same text); plus a free-running pass of the same bodies under the Go race detector; non-trivial = schedule in which at least two threads touched the same object; distinct = distinct (scenario, schedule)",
+		Rule:   "controlled cooperative scheduler + DFS over schedules with iterative preemption bounding (0, 1, 2; thorough 3) on a source-instrumented build (import \"sync\" -> scheduler-aware shim; every statement touching the guarded fields of a mutex-bearing struct or a mutable package-level variable preceded by an access hook = scheduling point; every write to a struct field reached through a pointer, and every read of a field that some statement writes, reported to the happens-before monitor without a scheduling point (all packages but the scanner); the pinned schema library's own synchronisation (two RWMutexes, one Once, two sync.Pools - the pools as deterministic LIFO free lists, fresh per execution, Get / Put scheduling points with the Put -> Get happens-before edge) redirected to the same shim; generated VerifResetGlobals). H1: for each of the 7 generated collection types, every scenario of 2 writers x 1 reader with one operation each from {Set, SetToTop, Update, Set other key} x {Get, Len, Each, MarshalJSON} on keys forced to collide, from an empty or pre-filled collection: no data race (vector-clock happens-before monitor), no deadlock, the history is linearizable against a sequential ordered-map reference (brute force over the <= 3! orders consistent with real time), no lost update, every key once in the order; H2: 2-3 threads making the process's first calls to NewDirectiveType; H3: two whole parses (same / different / rejected documents) against package-level state, and 2-3 whole parses that were handed the same option value; H4: one validated catalog whose first serialisation and reads happen in 2-3 threads at once (reference result from a second catalog built from the same text); plus a free-running pass of the same bodies under the Go race detector; non-trivial = schedule in which at least two threads touched the same object; distinct = distinct (scenario, schedule)",
 		Assume: []string{"weak-memory reorderings are not modelled: the happens-before monitor reports the race that would permit them", "the schema library's own synchronisation is covered only by the free-running race-detector pass"},
 		Run:    runC16, QuickCap: 10 * time.Minute, ThoroughCap: 40 * time.Minute,
 	})
@@ -671,6 +671,7 @@ func runC16(c *fw.Ctx) {
 		"ok-a":     "JSIGHT 0.3\nTYPE @t\n  {\"id\": 1}\nGET /a // note\n  200 @t\n",
 		"ok-b":     "JSIGHT 0.3\nTAG @g\nURL /b\n  POST\n    Tags @g\n    Request regex\n      /x+/\n    200 any\n",
 		"rejected": "JSIGHT 0.3\nGET /c\n  200 @nope\n",
+		"ok-m":     "JSIGHT 0.3\nMACRO @m\n(\n  200 any\n)\nGET /m\n  PASTE @m\n",
 		// documents that walk through as much of the library as one text can: quoted parameters with
 		// escapes, INFO / SERVER / TAG / ENUM, allOf, macros, descriptions, both annotation spellings,
 		// regex, path parameters, JSON-RPC (anything the library keeps outside the JApiCore of one
@@ -727,6 +728,65 @@ func runC16(c *fw.Ctx) {
 			}
 		}
 		runHarness(h)
+	}
+
+	// H3': option values made once and handed to several projects that are processed at the same
+	// time (an Option is a reusable value of the public API): each project's result equals the
+	// result it gives alone with freshly made option values
+	{
+		type proj struct {
+			doc  string
+			opts func(shared core.Option) []core.Option
+		}
+		fresh := func() core.Option { return core.WithBannedDirectives(directive.Include) }
+		projs := map[string]proj{
+			"two-bans": {"ok-a", func(sh core.Option) []core.Option {
+				return []core.Option{core.WithFixedSeedForRegex(), sh, core.WithBannedDirectives(directive.Macro, directive.Paste)}
+			}},
+			"one-ban-macros": {"ok-m", func(sh core.Option) []core.Option { return []core.Option{core.WithFixedSeedForRegex(), sh} }},
+			"one-ban-plain":  {"ok-b", func(sh core.Option) []core.Option { return []core.Option{sh, core.WithFixedSeedForRegex()} }},
+		}
+		parseWith := func(text string, oo []core.Option) string {
+			cc := core.NewJApiCore(fs.NewFile("root.jst", []byte(text)), oo...)
+			if je := cc.ValidateJAPI(); je != nil {
+				return fmt.Sprintf("err %d %s", je.Index(), je.Msg)
+			}
+			b, err := cc.Catalog().ToJson()
+			if err != nil {
+				return "sererr " + err.Error()
+			}
+			return string(b)
+		}
+		soloO := map[string]string{}
+		for k, p := range projs {
+			soloO[k] = parseWith(docs[p.doc], p.opts(fresh()))
+		}
+		for _, set := range [][]string{{"two-bans", "one-ban-macros"}, {"one-ban-macros", "two-bans"}, {"two-bans", "one-ban-plain", "one-ban-macros"}, {"one-ban-macros", "one-ban-macros"}} {
+			set := set
+			h := harness{name: "H3-shared-options " + strings.Join(set, "+")}
+			h.maxBound = 1
+			if len(set) > 2 {
+				h.maxBound = 0 // three long threads: every order of whole parses, no preemption
+			}
+			h.setup = func() ([]func(), []interface{}, func() (string, string)) {
+				shared := fresh() // one value for all projects of this execution
+				res := make([]string, len(set))
+				var bodies []func()
+				for i, k := range set {
+					i, k := i, k
+					bodies = append(bodies, func() { res[i] = parseWith(docs[projs[k].doc], projs[k].opts(shared)) })
+				}
+				return bodies, []interface{}{vsync.GID("directive.ee")}, func() (string, string) {
+					for i, k := range set {
+						if res[i] != soloO[k] {
+							return "differs", fmt.Sprintf("project %s processed with an option value shared with the other projects gives %s, with its own option values %s", k, clipS(res[i], 120), clipS(soloO[k], 120))
+						}
+					}
+					return "same", ""
+				}
+			}
+			runHarness(h)
+		}
 	}
 
 	// H4: one catalog, concurrent serialisation and reads
